@@ -45,6 +45,9 @@ namespace OP2Utility::Stream
 			throw std::runtime_error("Requested filename already exists as a directory.");
 		}
 
+		// Validate the open mode before anything is created, so that a refused open leaves no new directory behind
+		const auto iosOpenMode = TranslateFlags(filename, openMode);
+
 		// Create directory if it does not exist. ofstream will fail if directory does not exist.
 		auto directory = XFile::GetDirectory(filename);
 		if (!directory.empty() && !XFile::PathExists(directory)) 
@@ -56,7 +59,7 @@ namespace OP2Utility::Stream
 			XFile::NewDirectory(directory);
 		}
 
-		file = std::ofstream(filename, TranslateFlags(filename, openMode));
+		file = std::ofstream(filename, iosOpenMode);
 
 		if (!file.is_open()) {
 			throw std::runtime_error("File could not be opened. Filename: " + filename);
